@@ -1,0 +1,97 @@
+//! Verification hooks, only compiled with the cargo feature `verif`.
+//!
+//! The lexer is private to `parse`; these functions re-export it in a plain
+//! data form so that an external checker can observe token kinds and spans.
+//! Nothing here changes behaviour of the crate.
+use crate::parse::lex::token::{Lex, Token};
+use crate::parse::lex::tokenize;
+use crate::parse::lex::verif_hooks::{into_tokens, State};
+
+#[derive(Clone, Debug)]
+pub struct Tok {
+    pub kind: String,
+    pub lexeme: String,
+    pub start: (usize, usize),
+    pub end: (usize, usize),
+    pub nested: Vec<Vec<Tok>>,
+}
+
+fn kind_of(token: &Token) -> String {
+    let dbg = format!("{token:?}");
+    dbg.split(|c: char| !c.is_alphanumeric())
+        .next()
+        .unwrap_or("")
+        .to_string()
+}
+
+fn convert(lex: &Lex) -> Tok {
+    let nested = if let Token::Str(_, nested) = &lex.token {
+        nested
+            .iter()
+            .map(|toks| toks.iter().map(convert).collect())
+            .collect()
+    } else {
+        vec![]
+    };
+    Tok {
+        kind: kind_of(&lex.token),
+        lexeme: format!("{}", lex.token),
+        start: (lex.pos.start.line, lex.pos.start.pos),
+        end: (lex.pos.end.line, lex.pos.end.pos),
+        nested,
+    }
+}
+
+/// Token stream of the real lexer, or `(line, column, message)` of the error.
+pub fn lex(input: &str) -> Result<Vec<Tok>, (usize, usize, String)> {
+    tokenize(input)
+        .map(|tokens| tokens.iter().map(convert).collect())
+        .map_err(|err| (err.pos.line, err.pos.pos, err.msg))
+}
+
+/// The real lexer state, steppable one text fragment at a time, for
+/// explicit-state exploration of the indentation automaton.
+#[derive(Clone, Debug)]
+pub struct LexMachine {
+    state: State,
+}
+
+impl Default for LexMachine {
+    fn default() -> Self {
+        Self::new()
+    }
+}
+
+impl LexMachine {
+    pub fn new() -> LexMachine {
+        LexMachine {
+            state: State::new(),
+        }
+    }
+
+    /// Feed a self-delimiting fragment of source text through `into_tokens`.
+    #[allow(clippy::while_let_on_iterator)]
+    pub fn feed(&mut self, fragment: &str) -> Result<Vec<Tok>, (usize, usize, String)> {
+        let mut out = vec![];
+        let mut it = fragment.chars().peekable();
+        while let Some(c) = it.next() {
+            let tokens = into_tokens(c, &mut it, &mut self.state)
+                .map_err(|err| (err.pos.line, err.pos.pos, err.msg))?;
+            out.extend(tokens.iter().map(convert));
+        }
+        Ok(out)
+    }
+
+    /// What `tokenize` appends at end of input (before the Eof token).
+    pub fn flush(&mut self) -> Vec<Tok> {
+        self.state.flush_indents().iter().map(convert).collect()
+    }
+
+    pub fn key(&self) -> (i32, i32, bool, usize) {
+        self.state.verif_key()
+    }
+
+    pub fn pos(&self) -> (usize, usize) {
+        (self.state.pos.line, self.state.pos.pos)
+    }
+}
